@@ -142,7 +142,7 @@ class Stream:
     def run(self, name, theorems, skip=lambda e, g: False):
         ctx = self.ctx
         got = self.model_parallel()
-        ndis = 0; nskip = 0
+        ndis = 0; nskip = 0; nknown = 0
         per_kind = {}
         for r, e, g, (kind, oracle, info) in zip(self.req, self.exp, got, self.meta):
             if skip(e, g):
@@ -152,6 +152,9 @@ class Stream:
                 ndis += 1
                 if callable(kind):
                     kind, oracle = kind(e, g)
+                if '%s:%s' % (name, kind) in ctx.known_keys():
+                    # an open known finding of exactly this call site: reported (KNOWN-FINDING), not counted against the stream
+                    ndis -= 1; nknown += 1
                 # at most 3 searches per call site (kind), 60 in total
                 per_kind[kind] = per_kind.get(kind, 0) + 1
                 if per_kind[kind] > 3 or sum(min(v, 3) for v in per_kind.values()) > 60:
@@ -169,7 +172,7 @@ class Stream:
         if per_kind:
             ctx.extra['disagreements_per_call_site_' + name] = per_kind
         ctx.obligation('correspondence stream %s: %d requests, model == implementation' % (name, len(self.req)), ndis == 0,
-                       '%d disagreements' % ndis)
+                       '%d disagreements%s' % (ndis, (' (+%d at call sites listed as open known findings)' % nknown) if nknown else ''))
         ctx.extra['requests_' + name] = len(self.req)
         if nskip:
             ctx.count(name + ': skipped (edge of tolerance)', nskip)
